@@ -165,6 +165,13 @@ def build_recipe(recipe):
 
 def convert_digest(recipe):
     from amaranth.back import rtlil
+    if "progen" in recipe:
+        # a generated Module-DSL program (If/Switch/FSM bodies mixing several domains, wrappers, submodules); its domains are
+        # left undeclared so that they are created implicitly
+        from dsim import progen
+        B = progen.build(recipe["progen"])
+        text = rtlil.convert(B.top, ports=list(B.sigs))
+        return hashlib.sha256(text.encode()).hexdigest(), text
     top, ports = build_recipe(recipe)
     text = rtlil.convert(top, ports=ports) if ports is not None else rtlil.convert(top)
     return hashlib.sha256(text.encode()).hexdigest(), text
@@ -185,6 +192,8 @@ def worker_main():
 
 
 def count_implicit(recipe):
+    if "progen" in recipe:
+        return len(recipe["progen"]["domains"])
     used = set()
 
     def walk(spec):
@@ -212,6 +221,8 @@ def run_hashseed(case, res, dig, stats):
     for r in recipes:
         if count_implicit(r) >= 2:
             P["implicit_domains_ge2"] += 1
+        if "progen" in r:
+            continue
         txt = json.dumps(r)
         if '"name": null' in txt:
             P["anonymous_submodule"] += 1
@@ -318,6 +329,7 @@ def build_restart_design(d):
             self.c = Signal(d["w1"] + d["w2"])
             self.st = Signal(2)
             self.flag = Signal(4)          # driven by the background process
+            self.flag2 = Signal(4)         # driven by a combinational-replacement process (async for ... in ctx.changed())
             self.rdata = Signal(4)
             self.mem = Memory(shape=4, depth=d["depth"], init=d["init"])
 
@@ -370,7 +382,8 @@ def simulate_restart(case, stats, mode=None):
         in_critical = [0]
 
         def snapshot(ctx):
-            vals = [ctx.get(s) for s in (dut.a, dut.b, dut.c, dut.st, dut.flag, dut.rdata, dut.en, dut.go, dut.wen, dut.raddr)]
+            vals = [ctx.get(s) for s in (dut.a, dut.b, dut.c, dut.st, dut.flag, dut.flag2, dut.rdata, dut.en, dut.go, dut.wen,
+                                         dut.raddr)]
             rows = [ctx.get(dut.mem.data[i]) for i in range(d["depth"])]
             return vals + rows
 
@@ -436,6 +449,12 @@ def simulate_restart(case, stats, mode=None):
                         count += 1
                         ctx.set(dut.flag, count & 15)
             sim.add_process(process)
+
+            async def comb_process(ctx):
+                # docs/simulator.rst: replacing combinational logic; the first wake-up at time 0 computes the initial output
+                async for (av,) in ctx.changed(dut.a):
+                    ctx.set(dut.flag2, (av ^ 5) & 15)
+            sim.add_process(comb_process)
 
         sim.run()
         T = list(log)
@@ -590,7 +609,18 @@ def gen_case_i(seed, tier, index):
     if kind == "hashseed":
         n = 8 if tier == "quick" else 24
         hs = fl.sample(range(1, 100000), 3)
-        return {"kind": "hashseed", "recipes": [gen_recipe(cfg) for _ in range(n)], "hashseeds": hs}
+        from dsim import progen
+        recipes = []
+        for k in range(n):
+            if k % 2:
+                prog = progen.gen_program(cfg, {"max_domains": 3, "max_modules": 3, "wrappers": cfg.random() < 0.4, "max_stmts": 6,
+                                                "allow_async": False, "zero_width": False})
+                for sg in prog["signals"]:        # port names must be unique and non-empty: make them so
+                    sg["name"] = sg["name"] + str(prog["signals"].index(sg))
+                recipes.append({"progen": prog})
+            else:
+                recipes.append(gen_recipe(cfg))
+        return {"kind": "hashseed", "recipes": recipes, "hashseeds": hs}
     if kind == "restart":
         return gen_restart(cfg, wl, fl, tier)
     from props import c19
@@ -647,6 +677,8 @@ def simplify(case):
                 yield dict(case, steps=steps)
     if case["kind"] == "hashseed":
         for i, r in enumerate(case["recipes"]):
+            if "progen" in r:
+                continue
             def prune(spec):
                 for j in range(len(spec["subs"])):
                     yield dict(spec, subs=spec["subs"][:j] + spec["subs"][j + 1:])
